@@ -52,6 +52,10 @@ def synthetic(rng):
     # 4b: chain identifiers differing only in case are different chains; several models (MODEL records are not chain records)
     out.append(("chains A and a (identifiers differing only in case)", "\n".join(fa + ["TER"] + [structures.set_chain(l, "a") for l in fb] + ["TER"]) + "\nEND\n"))
     out.append(("two models of two chains", structures.as_models(["\n".join(fa + ["TER"] + fb + ["TER"]) + "\n"] * 2)))
+    # 4c: each chain's own copy of a ligand, same residue name and number, written one directly after the other
+    ligb = structures.move("\n".join(lig) + "\n", None, (0.0, 0.0, 40.0)).splitlines()
+    out.append(("two chains, each with its copy of the ligand (same residue name and number, consecutive records)",
+                "\n".join(fa + ["TER"] + fb + ["TER"] + [structures.set_chain(l, "A") for l in lig] + [structures.set_chain(l, "B") for l in ligb]) + "\nEND\n"))
     # 5: ligand of chain B written before chain B's protein atoms
     out.append(("ligand records before the chain", "\n".join(fa + ["TER"] + [structures.set_chain(l, "B") for l in lig] + fb) + "\nEND\n"))
     # 6: three chains, interleaved waters of other chains
